@@ -3766,3 +3766,88 @@ func errorBranchExits(c *Check, a *Anchors, rule string) {
 	c.Floor(rule, checked, 150)
 	_ = n
 }
+
+// elementLiteralCarriesFields (C03 and others): an element of the compiled task that is rebuilt field by field from the
+// element of the definition keeps every attribute.
+var elementFieldDropReviewed = map[string]string{
+	"Cmd.For": "the loop is expanded: each generated command stands for one item and must not loop again",
+	"Dep.For": "the loop is expanded: each generated dependency stands for one item and must not loop again",
+}
+
+func elementLiteralCarriesFields(c *Check, a *Anchors, rule string) {
+	c.Rule(rule, "in package task a composite literal of an ast element type (Cmd, Dep, Precondition, Defer ...) that takes two or more of its values from the fields of ONE existing value of that type is a rebuilt copy of that value: it carries every field of the type (reviewed exceptions: the expanded `for`). A field left out silently resets an attribute — ignore_error, silent, platforms … — for exactly the elements that go through this path (loop-generated commands)")
+	n := 0
+	ord := map[string]int{}
+	for _, fb := range c.P.BodiesIn(PkgTask) {
+		info := fb.Info()
+		inspectBody(fb.Body, func(nd ast.Node) bool {
+			lit, ok := nd.(*ast.CompositeLit)
+			if !ok {
+				return true
+			}
+			tv, ok := info.Types[lit]
+			if !ok {
+				return true
+			}
+			named := namedOf(tv.Type)
+			if named == nil || named.Obj().Pkg() == nil || named.Obj().Pkg().Path() != PkgAst || named.Obj().Name() == "Task" {
+				return true // ast.Task is judged by fields-classified / copy-exhaustive
+			}
+			st, ok := named.Underlying().(*types.Struct)
+			if !ok {
+				return true
+			}
+			// source variable: a variable of the same (pointer) type whose fields are read in >= 2 values
+			srcCount := map[*types.Var]int{}
+			keys := map[string]bool{}
+			for _, el := range lit.Elts {
+				kv, ok := el.(*ast.KeyValueExpr)
+				if !ok {
+					return true
+				}
+				if id, ok := kv.Key.(*ast.Ident); ok {
+					keys[id.Name] = true
+				}
+				seen := map[*types.Var]bool{}
+				ast.Inspect(kv.Value, func(m ast.Node) bool {
+					if sel, ok := m.(*ast.SelectorExpr); ok {
+						if v := varOf(info, sel.X); v != nil && namedOf(v.Type()) == named && !seen[v] {
+							if s := info.Selections[sel]; s != nil && s.Kind() == types.FieldVal {
+								seen[v] = true
+								srcCount[v]++
+							}
+						}
+					}
+					return true
+				})
+			}
+			var src *types.Var
+			for v, k := range srcCount {
+				if k >= 2 && (src == nil || k > srcCount[src]) {
+					src = v
+				}
+			}
+			if src == nil {
+				return true
+			}
+			n++
+			c.Fn(fb)
+			var missing []string
+			for i := 0; i < st.NumFields(); i++ {
+				f := st.Field(i)
+				if keys[f.Name()] || elementFieldDropReviewed[named.Obj().Name()+"."+f.Name()] != "" {
+					continue
+				}
+				missing = append(missing, f.Name())
+			}
+			key := ordinal(ord, named.Obj().Name()+"-literal@"+fnDisplay(fb.Root()))
+			c.Decide(len(missing) == 0, rule, key, lit.Pos(), "rebuilt from "+src.Name()+" with every field carried over",
+				fmt.Sprintf("the ast.%s built from the fields of %s leaves out %s: the elements that take this path silently lose that attribute (a looped command with ignore_error: true would abort the task; a platform-restricted or silent one would run everywhere / echo)", named.Obj().Name(), src.Name(), strings.Join(missing, ", ")))
+			return true
+		})
+	}
+	c.Extra["element_literals_judged"] = n
+	if n == 0 {
+		c.OK(rule, "no-rebuilt-element@task", 0, "package task rebuilds no ast element field by field (elements are made with DeepCopy, judged by copy-exhaustive); the stored change C03-r4a is the positive example of this rule")
+	}
+}
